@@ -310,7 +310,13 @@ const FRAGS: &[&str] = &[
 ];
 const BASE_RULES: &str = ".cfa: $b 8 + .ra: .cfa ^";
 /// (address of the first delta line in the file, address of the second)
-const LAYOUTS: &[(u64, u64)] = &[(0x14, 0x18), (0x18, 0x14), (0x10, 0x2f), (0x08, 0x14), (0x14, 0x30)];
+/// The last three put both delta lines at ONE address: both are in effect from that address on. Which of two
+/// same-address lines wins for one register is not documented, so those layouts are only run when the two
+/// lines assign disjoint sets of registers (then the order cannot matter).
+const LAYOUTS: &[(u64, u64)] = &[(0x14, 0x18), (0x18, 0x14), (0x10, 0x2f), (0x08, 0x14), (0x14, 0x30), (0x14, 0x14), (0x10, 0x10), (0x2f, 0x2f)];
+fn labels(rules: &str) -> Vec<&str> {
+    rules.split_whitespace().filter(|t| t.ends_with(':')).collect()
+}
 const LOOKUPS: &[u64] = &[0x0f, 0x10, 0x13, 0x14, 0x16, 0x18, 0x2e, 0x2f, 0x30, 0x40];
 
 fn struct_space(delta1_len: u32) -> Space {
@@ -341,6 +347,7 @@ fn struct_space(delta1_len: u32) -> Space {
     let inits = std::sync::Arc::new(inits);
     let deltas = std::sync::Arc::new(deltas);
     let (i2, d2) = (inits.clone(), deltas.clone());
+    let deltas_run = deltas.clone();
     let build = move |idx: u64| -> (String, Vec<CfiRecord>) {
         let d = unrank(idx, &radices);
         let init = &i2[d[0] as usize];
@@ -367,6 +374,23 @@ fn struct_space(delta1_len: u32) -> Space {
         let d = unrank(idx, &radices);
         if d[1] == 0 && d[2] == 0 && d[3] != 0 {
             return; // no delta lines: the layouts coincide
+        }
+        {
+            let (a1, a2) = LAYOUTS[d[3] as usize];
+            if a1 == a2 {
+                // same-address delta lines: only with two lines that name disjoint registers
+                match (&deltas_run[d[1] as usize], &deltas_run[d[2] as usize]) {
+                    (Some(x), Some(y)) => {
+                        let (lx, ly) = (labels(x), labels(y));
+                        // `$a:` and `a:` name one register
+                        let norm = |t: &str| t.trim_start_matches('$').to_string();
+                        if lx.is_empty() || ly.is_empty() || lx.iter().any(|a| ly.iter().any(|b| norm(a) == norm(b))) {
+                            return;
+                        }
+                    }
+                    _ => return,
+                }
+            }
         }
         let (text, recs) = build(idx);
         let sf = parse(&text);
@@ -547,7 +571,7 @@ fn main() {
             "the reference is written from the module documentation of walker.rs and the property statement; '@' truncates the lhs to a multiple of the rhs, which must be a power of two; zero is not a power of two".into(),
             "carve-out: '/' and '%' with an operand >= 2^63 give an unspecified value (signedness undocumented, FIXME in the source); everything computed from it is not compared, definite failures of the same rule still are".into(),
             "carve-out: syntactically malformed rule lines (empty EXPR, first token not 'REG:') only require: no panic, and Some implies cfa and ra were reported".into(),
-            "carve-out: delta records with equal addresses, tokens with '$' inside a word, labels that alias one register under two names (x29/fp: HashMap order, F10, belongs to C13) are not in the alphabet".into(),
+            "delta records with equal addresses are run only when the two lines assign disjoint registers (which line wins for one register is undocumented); carve-out: tokens with '$' inside a word, labels that alias one register under two names (x29/fp: HashMap order, F10, belongs to C13) are not in the alphabet".into(),
             "a rule for a register name the walker does not know has no observable effect (the walker rejects the name); the final state of such names is not compared".into(),
             "literals outside i64 and '.ra' in EXPR position are not values of the language: the rule fails".into(),
             "amd64 walk_stack: only rsp, rip and registers that have a rule are compared (which registers are forwarded implicitly is the unwinder's ABI table, not part of this property)".into(),
